@@ -45,6 +45,8 @@ Fixpoint is_prefix (p s : bytes) : bool :=
   end.
 
 Definition mem (c : N) (l : bytes) : bool := existsb (N.eqb c) l.
+(** strcasecmp(a, b) == 0 *)
+Definition ci_eqb (a b : bytes) : bool := bytes_eqb (map to_lower a) (map to_lower b).
 
 Fixpoint last_opt (s : bytes) : option N :=
   match s with [] => None | [c] => Some c | _ :: t => last_opt t end.
